@@ -16,6 +16,12 @@ claim("C15",
       "TLA+ spec CRC16 + TLC exhaustive check; trace validation of recorded crc8404B calls by TLC", "DESIGN.md section 4 C15")
 
 
+claim("C01",
+      "TLC exhausts Read(Write(f)) = f on a bounded abstract instance of the container (1-cell fields, 2-cell blocks, symbolic MAC/cipher tokens; all contents up to the stated bounds, two keys, MAC check on/off); every content TLC enumerated is concretised and round-tripped through the real writer/reader; recorded write/read events of the real code over random and edge-case files (stream and path I/O, MAC on/off) are validated by TLC against the concrete instance of the same specification (real field widths, AES.tla): text = envelope(signature ++ Serialize), read-back = ReadText;Parse.",
+      "Trusted: TLC; AES.tla (FIPS-197 vectors, OpenSSL cross-check in C03/C16); the abstraction of MACs as unforgeable tokens; UTF-8 locale.",
+      "TLA+ spec Bf3Layout/Text (+AES) : TLC exhaustive on abstract instance, S->C replay of TLC-enumerated contents, C->S trace validation on the concrete instance", "DESIGN.md section 4 C01")
+
+
 def main():
     props = [json.loads(l) for l in open(os.path.join(VERIF, "properties.jsonl"))]
     m = {"version": 1,
